@@ -790,6 +790,11 @@ def rule_lookup_provenance(ctx, rep: Report, rid="Q5"):
     kept_list = unparse(rets[-1].value.elts[0]) if rets else "?"
     keep = [c for c in ast.walk(outer) if isinstance(c, ast.Call) and unparse(c.func) == f"{kept_list}.append" and unparse(c.args[0]) == cand]
     skips = [i for i in outer.body if isinstance(i, ast.If) and any(isinstance(x, ast.Continue) for x in i.body)]
+    unfiltered = [r for r in rets if any(isinstance(x, ast.Name) and x.id == fps[0] for x in ast.walk(r.value.elts[0]))]
+    rep.add(rid, "every answer of the filter is the filtered list", bool(rets) and not unfiltered and all(unparse(r.value.elts[0]) == kept_list for r in rets),
+            f"return(s) at line {[r.lineno for r in unfiltered] or [r.lineno for r in rets if unparse(r.value.elts[0]) != kept_list]} hand back `{fps[0]}` "
+            f"(or something else than `{kept_list}`) without the arity and name filters: a binding without arguments gets the text of whichever "
+            f"same-named overload comes first in the XML", f"{ci.mod.rel}:{ff.lineno}")
     rep.add(rid, "a rejected candidate is skipped before it can be kept",
             len(keep) == 1 and len(skips) >= 2 and all(s_.lineno < keep[0].lineno for s_ in skips),
             f"{len(skips)} skip tests before {len(keep)} append(s)", f"{ci.mod.rel}:{ff.lineno}")
